@@ -165,9 +165,12 @@ type pongObs struct {
 }
 
 // partA: converged mesh, all ordered pairs.
-func partA(res *core.Result, pool *idPool, r *rand.Rand, t *vmesh.Topology, labels vmesh.LabelMode, random bool) {
+func partA(res *core.Result, pool *idPool, r *rand.Rand, t *vmesh.Topology, labels vmesh.LabelMode, random bool, lite map[int]bool) {
 	desc := fmt.Sprintf("%s labels=%d random-convergence=%v", t.Canon(), labels, random)
-	ms, err := vmesh.Build(r, t, pool.get(t.N), vmesh.BuildOpts{Labels: labels, Introduce: true})
+	if len(lite) > 0 {
+		desc += fmt.Sprintf(" lite-mode-routers=%v", lite)
+	}
+	ms, err := vmesh.Build(r, t, pool.get(t.N), vmesh.BuildOpts{Labels: labels, Introduce: true, LiteNodes: lite})
 	if err != nil {
 		res.Inconcl("build: %v", err)
 		return
@@ -645,7 +648,19 @@ func run(c *core.Ctx) {
 		r := core.RNG(fmt.Sprintf("c10/a/%d", w))
 		pool := &idPool{r: core.RNG(fmt.Sprintf("c10/ids/%d", w))}
 		for i := w; i < len(topos); i += W {
-			partA(res, pool, r, topos[i], vmesh.LabelMode(i%3), i%2 == 1)
+			partA(res, pool, r, topos[i], vmesh.LabelMode(i%3), i%2 == 1, nil)
+		}
+		// a lite-mode router in the middle: its neighbours are all direct peers of it (announcements are not
+		// forwarded TO lite routers, so longer chains behind one do not converge by design), and routes between
+		// them lead through it
+		if w < 4 {
+			t := []*vmesh.Topology{vmesh.Line(3), vmesh.Star(4), vmesh.Star(6), vmesh.Line(3)}[w]
+			center := 0
+			if t.Name == "line" {
+				center = 1
+			}
+			partA(res, pool, r, t, vmesh.LabelMode(w%3), w%2 == 1, map[int]bool{center: true})
+			res.Count("meshes_with_lite_relay", 1)
 		}
 	})
 	nAdvMeshes := c.Q(32, 800)
